@@ -1,8 +1,8 @@
 #!/verif/.venv/bin/python
 # Replay of a solver counterexample against the unmodified code (no shims).
-# property=C09 kernel=atomic label=atomic:delay_rest#0
+# property=C09 kernel=atomic label=atomic:eom_off#0
 import sys
 sys.path[:0] = ['/repo' + "/pulser-core", '/repo' + "/pulser-simulation", "/verif"]
 from symx.replay import replay
-sys.exit(replay(check='checks.c09', kernel='atomic', shape={'device': 'virt_maxseq', 'prefix': 'p1', 'ops': ['delay_rest']},
-                assignment={'pd0/k': 2, 'pd1/k': 2, 'buf#1.start': 0, 'buf#1.end': 3, 'buf#2.start': 0, 'buf#2.end': 0, 'dl0': 7, 'buf#5.start': 0, 'buf#5.end': 0, 'buf#6.start': 0, 'buf#6.end': 1}, label='atomic:delay_rest#0'))
+sys.exit(replay(check='checks.c09', kernel='atomic', shape={'device': 'virt_maxseq', 'prefix': 'p2', 'ops': ['eom_off']},
+                assignment={'pd1/k': 979, 'pd2/k': 3, 'buf#1.start': 0, 'buf#1.end': 20, 'buf#2.start': 0, 'buf#2.end': 21, 'buf#5.start': 0, 'buf#5.end': 1, 'buf#6.start': 0, 'buf#6.end': 1}, label='atomic:eom_off#0'))
